@@ -111,7 +111,7 @@ func explainedByOffByOne(rec histRecord, res *ser.Result, b *built) bool {
 		// the catalog, the page tree root or the information dictionary is
 		// not found through the shifted table
 		for _, n := range []uint32{b.cat, b.cat + 1, b.info} {
-			if predict(n, 0) <= 0 {
+			if n != 0 && predict(n, 0) <= 0 {
 				return true
 			}
 		}
